@@ -122,7 +122,7 @@ func TestVerifC06FindSegments(t *testing.T) {
 		for c := range classes {
 			cl = append(cl, c)
 		}
-		rec.Case(nontrivial, fmt.Sprintf("recordPath=%q requests=%s", strings.Replace(tr.RecordPath, tr.Base, "$BASE", 1), strings.Join(descs, " ")), cl...)
+		rec.Case(nontrivial, fmt.Sprintf("recordPath=%q requests=%s", tr.DescRecordPath(), strings.Join(descs, " ")), cl...)
 	})
 }
 
